@@ -94,6 +94,15 @@ def answer (toks : List String) : String :=
       showOpt (showMat showRats)
         (twinSurrogatesKW bits.toNat! (matOf rats d) dim.toNat! delay.toNat! ((rat? thr).getD 0)
           md.toNat! (pickOf (rats dr)) (garbageR seed.toNat!) (garbageN seed.toNat!))
+  | ["twinsurr_src", bits, dim, delay, thr, md, seed, dr, d] =>
+      showOpt (showMat showRats)
+        (twinSurrogatesSrc bits.toNat! (matOf rats d) dim.toNat! delay.toNat! ((rat? thr).getD 0)
+          md.toNat! (fun c => (rats dr).getD c 0) (garbageR seed.toNat!) (garbageN seed.toNat!))
+  | ["rp_twinsurr_src", md, ns, dr, r, emb] =>
+      match rpTwinSurrogatesSrc md.toNat! ns.toNat! (matOf bools r) (matOf rats emb)
+          (fun c => (rats dr).getD c 0) with
+      | some out => if out.isEmpty then "N" else join (out.map (showMat showRats)) "|"
+      | none => "raise:IndexError"
   | ["rp_twins_kw", md, r] => showMat showNats (rpTwinsKW md.toNat! (matOf bools r))
   | ["twins_rkw", md, n, r, nr] =>
       showMat showNats (twinsRKW md.toNat! n.toNat! (matOf bools r) (ints nr))
